@@ -636,7 +636,7 @@ def run(ctx):
             ctx.fail(sig, what, case, exp, obs)
 
     # ---------------------------------------------------------------- matrices
-    n_mat = ctx.n(150, 2000)
+    n_mat = ctx.n(150, 1200)
     trees = [Node(1, None, None, items=[], kind="sub"), Node(3, None, None, items=[], kind="sub")]
     trees += corpus_trees()
     for i in range(n_mat):
@@ -663,7 +663,7 @@ def run(ctx):
     ctx.streams["compute_unitary(use_polarization=True)"] = len(trees)
 
     # ---------------------------------------------------------------- conversion of polarised states
-    n_conv = ctx.n(150, 1500)
+    n_conv = ctx.n(150, 1000)
     convs = []
     for i in range(n_conv):
         r = rng.fork(("conv", i))
@@ -686,7 +686,7 @@ def run(ctx):
     ctx.streams["convert_polarized_state"] = len(convs)
 
     # ---------------------------------------------------------------- distributions
-    n_sim = ctx.n(160, 2000)
+    n_sim = ctx.n(160, 1000)
     sims = corpus_sims(labels)
     for i in range(n_sim):
         r = rng.fork(("sim", i))
@@ -729,7 +729,7 @@ def run(ctx):
     ctx.streams["probs / evolve / Processor"] = len(prepared)
 
     # ---------------------------------------------------------------- sessions: one long-lived simulator
-    n_sess = ctx.n(40, 500)
+    n_sess = ctx.n(40, 300)
     sessions = corpus_sessions(labels)
     for i in range(n_sess):
         sessions.append(rand_session(rng.fork(("sess", i)), labels, nmax))
@@ -756,7 +756,7 @@ def run(ctx):
     ctx.streams["sessions (one simulator, histories of set_circuit / probs / evolve)"] = len(sessions)
 
     # ---------------------------------------------------------------- processor level: configuration histories
-    n_proc = ctx.n(60, 600)
+    n_proc = ctx.n(60, 300)
     hists = corpus_processor(labels)
     for i in range(n_proc):
         hists.append(rand_processor_history(rng.fork(("proc", i)), labels, nmax))
